@@ -109,6 +109,13 @@ pub struct Runtime<App>
 where
     App: Application,
 {
+    // NOTE: fields are dropped in declaration order. Pending events own parts
+    // of the application (messages, module handles), so they go first; the
+    // permit goes last: the next runtime of this process (possibly waiting on
+    // another thread) must not start while anything of this one is still alive.
+    future_event_set: FutureEventSet<App>,
+    profiler: Profiler<App::EventSet>,
+
     /// The contained runtime application, defining globals and the used event set.
     pub app: App,
 
@@ -122,12 +129,9 @@ where
 
     // Misc
     quiet: bool,
-    profiler: Profiler<App::EventSet>,
 
     #[allow(dead_code)]
     permit: MutexGuard<'static, ()>,
-
-    future_event_set: FutureEventSet<App>,
 }
 
 #[derive(Debug, PartialEq, Eq)]
